@@ -270,10 +270,19 @@ func doPackage(dir string, imap map[string]string, timers, maprange, yield bool,
 					total["yield"]++
 				}
 			}
+			clauseBlocks := map[*ast.BlockStmt]bool{}
 			ast.Inspect(f, func(n ast.Node) bool {
 				switch x := n.(type) {
+				case *ast.SwitchStmt:
+					clauseBlocks[x.Body] = true
+				case *ast.TypeSwitchStmt:
+					clauseBlocks[x.Body] = true
+				case *ast.SelectStmt:
+					clauseBlocks[x.Body] = true
 				case *ast.BlockStmt:
-					addList(x.List)
+					if !clauseBlocks[x] {
+						addList(x.List)
+					}
 				case *ast.CaseClause:
 					addList(x.Body)
 				case *ast.CommClause:
